@@ -128,6 +128,7 @@ type checkResult struct {
 }
 
 func runUnit(u Unit, cfg *PropConfig, tier string, workdir string, res *checkResult) {
+	currentPropID = cfg.ID
 	e := NewEngine()
 	e.allocBound = cfg.AllocBound
 	dir := filepath.Join(repoDir, u.Module)
@@ -161,6 +162,12 @@ func runUnit(u Unit, cfg *PropConfig, tier string, workdir string, res *checkRes
 			continue
 		}
 		seen[r] = true
+		if strings.HasPrefix(r, "lemma:") {
+			if err := e.RunLemma(strings.TrimPrefix(r, "lemma:")); err != nil {
+				res.engineErrors = append(res.engineErrors, err.Error())
+			}
+			continue
+		}
 		f := e.findFunc(r)
 		if f == nil {
 			res.engineErrors = append(res.engineErrors, "root function not found: "+r)
@@ -217,8 +224,26 @@ func runUnit(u Unit, cfg *PropConfig, tier string, workdir string, res *checkRes
 		}
 		e.obligations = keep
 	}
+	tExec := time.Now()
 	e.discharge(workdir, timeout)
 	e.incClose()
+	if os.Getenv("GOVC_VERBOSE") != "" {
+		fmt.Fprintf(os.Stderr, "unit %s: load+exec %.1fs, solve %.1fs, %d obligations\n", u.Module, tExec.Sub(t0).Seconds(), time.Since(tExec).Seconds(), len(e.obligations))
+		type slow struct {
+			n string
+			s float64
+		}
+		var sl []slow
+		for _, o := range e.obligations {
+			if o.Result != nil && o.Result.Secs > 2 {
+				sl = append(sl, slow{o.Name + " [" + o.Result.Solver + " " + o.Result.Status + "]", o.Result.Secs})
+			}
+		}
+		sort.Slice(sl, func(i, j int) bool { return sl[i].s > sl[j].s })
+		for _, x := range sl {
+			fmt.Fprintf(os.Stderr, "  slow %.1fs %s\n", x.s, x.n)
+		}
+	}
 	// group
 	byName := map[string]*group{}
 	// vacuity covers: a cover name is vacuous only when every instance (path) of it is unsatisfiable
@@ -591,10 +616,18 @@ func (e *Engine) discharge(workdir string, timeout int) {
 			}
 			q := o.U.Query(o.Assumes, o.Goal, gv)
 			to := timeout
+			if b := rootBudgets[o.Root]; b > to {
+				to = b // root flag solver_budget (bmain.go): quantified obligations known to need more than the default
+			}
 			if o.ExpectSat {
 				to = 3 // vacuity covers: only an "unsat" answer matters
 			}
-			r := Solve(workdir, fmt.Sprintf("%s.%d", o.Name, i), q, to, nil)
+			var use []string
+			if o.Kind == "lemma" || strings.Contains(o.Goal.S, "str.contains") {
+				// string lemmas: cvc5 is the solver that decides them; skip the z3-only first stage (scheduling only)
+				use = []string{"z3-new", "z3-4", "cvc5"}
+			}
+			r := Solve(workdir, fmt.Sprintf("%s.%d", o.Name, i), q, to, use)
 			if r.Status == "sat" && o.Hint != nil && !o.ExpectSat {
 				// look for a more realistic counterexample (replay hint); the verdict is already fixed
 				q2 := o.U.Query(append(append([]Term(nil), o.Assumes...), *o.Hint), o.Goal, gv)
@@ -625,7 +658,11 @@ func (e *Engine) discharge(workdir string, timeout int) {
 				gv = append(gv, modelTerms(in)...)
 			}
 			q := o.U.Query(o.Assumes, o.Goal, gv)
-			r := solveRace(workdir, fmt.Sprintf("%s.%d.retry", o.Name, i), q, 2*timeout, nil)
+			to2 := 2 * timeout
+			if b := rootBudgets[o.Root]; 2*b > to2 {
+				to2 = 2 * b
+			}
+			r := solveRace(workdir, fmt.Sprintf("%s.%d.retry", o.Name, i), q, to2, nil)
 			if r.Status == "unsat" || r.Status == "sat" {
 				r.Secs += o.Result.Secs
 				o.Result = &r
